@@ -50,6 +50,16 @@ impl ParseInfo {
             frame: frame_id,
             layer: cel.data.layer_index,
         };
+        // Like Aseprite itself, refuse a cel whose layer has not been declared.
+        // This also keeps the per-frame cel table bounded by the layer chunks
+        // actually present in the file.
+        if cel.data.layer_index as usize >= self.layers.len() {
+            return Err(AsepriteParseError::InvalidInput(format!(
+                "Cel {} references a layer that has not been declared ({} layers so far)",
+                cel_id,
+                self.layers.len()
+            )));
+        }
         self.framedata.add_cel(frame_id, cel)?;
         self.user_data_context = Some(UserDataContext::CelId(cel_id));
         Ok(())
